@@ -35,8 +35,8 @@ import (
 )
 
 const (
-	hostApp   = "app.example.test"
-	hostOther = "other.example.test"
+	hostApp   = "app.test"
+	hostOther = "oth.test"
 )
 
 var hosts = []string{hostApp, hostOther}
@@ -404,7 +404,7 @@ func (w *world) flowCase(r *c.Rng, auth *c.FakeAuth, force string) (c.Case, erro
 
 	// other request dimensions
 	code, errParam, formOK := "abc", "", true
-	email := "u@example.com"
+	email := "u@ex.io"
 	redeem := okRedeem(email)
 	redeemSym := "(RedeemOk " + c.Str(email) + ")"
 	if force == "" {
@@ -428,18 +428,18 @@ func (w *world) flowCase(r *c.Rng, auth *c.FakeAuth, force string) (c.Case, erro
 			email = ""
 			redeem, redeemSym = c.Answer{Status: 200, Body: `{"access_token":"at"}`}, "(RedeemOk [])"
 		case 8, 9:
-			email = "u@other.org"
+			email = "u@no.io"
 			redeem, redeemSym = okRedeem(email), "(RedeemOk "+c.Str(email)+")"
 		case 10:
-			email = "vip@corp.test"
+			email = "vip@co.io"
 			redeem, redeemSym = okRedeem(email), "(RedeemOk "+c.Str(email)+")"
 		}
 	}
 	valid := false
 	if host == hostApp {
-		valid = strings.HasSuffix(email, "@example.com")
+		valid = strings.HasSuffix(email, "@ex.io")
 	} else {
-		valid = email == "vip@corp.test"
+		valid = email == "vip@co.io"
 	}
 	auth.Set(c.AuthScript{Redeem: redeem})
 
@@ -618,7 +618,7 @@ var boundaryTargets = []string{
 	"/ping", "/ping/", "/%70ing", "/ping?x", "//ping", "/oauth2/callback", "/oauth2/callbac%6b", "/oauth2//callback", "/oauth2/callback/", "/oauth2/sign_out", "/oauth2/auth", "/oauth2/v1/certs", "/favicon.ico", "/robots.txt", "/robots%2Etxt",
 	"http://" + hostApp, "http://" + hostApp + "/", "http://" + hostApp + "/x?y", "http://" + hostApp + "?x", "http://" + hostApp + "//evil.com", "http://" + hostApp + "/\\evil.com", "http://" + hostApp + "/a/../b",
 	"HTTP://" + hostApp + "/x", "hTtPs://" + hostApp + "/x", "https://" + hostApp + "/x", "ftp://" + hostApp + "/x", "a+b-c.d://" + hostApp + "/x", "1http://" + hostApp + "/", "://" + hostApp + "/", ":" + hostApp,
-	"http://" + hostOther + "/x", "http://evil.com/x", "http://evil.com", "http://" + hostApp + ":80/x", "http://" + hostApp + ":/x", "http://APP.example.test/x",
+	"http://" + hostOther + "/x", "http://evil.com/x", "http://evil.com", "http://" + hostApp + ":80/x", "http://" + hostApp + ":/x", "http://APP.test/x",
 	"http://evil.com@" + hostApp + "/x", "http://" + hostApp + "@evil.com/x", "http://evil.com\\@" + hostApp + "/", "http://" + hostApp + "#@evil.com/", "http://" + hostApp + "?@evil.com/", "http://evil.com?@" + hostApp + "/",
 	"http://[::1]/x", "http:///x", "http:/evil.com/", "http:evil.com", "http:", "http://", "http://" + hostApp + "/%zz", "http://" + hostApp + "/ping", "http://" + hostApp + "/oauth2/callback",
 }
@@ -628,7 +628,7 @@ var segPool = []string{"a", "b", "..", ".", "", "", "%2e", "%2E%2e", ".%2e", "%2
 var queryPool = []string{"", "", "", "?", "?x=1", "?a?b", "?#", "?//evil.com", "?%zz", "?\xc3\xa9", "?\\", "??", "?x#y", "#f", "#", "#?x", "?next=http://evil.com/"}
 var leadPool = []string{"/", "/", "/", "/", "//", "///", "/\\", "/./", "/../", "/%2f", "/;", "", "\\"}
 var schemePool = []string{"http", "http", "https", "HTTP", "hTtP", "ftp", "a+b", "javascript", "1http", ""}
-var authPool = []string{hostApp, hostApp, hostApp, hostOther, "evil.com", hostApp + ":80", hostApp + ":", "user@" + hostApp, "evil.com@" + hostApp, hostApp + "@evil.com", "[::1]", "APP.example.test", "", hostApp + "%2f", "evil.com\\@" + hostApp, hostApp + "."}
+var authPool = []string{hostApp, hostApp, hostApp, hostOther, "evil.com", hostApp + ":80", hostApp + ":", "user@" + hostApp, "evil.com@" + hostApp, hostApp + "@evil.com", "[::1]", "APP.test", "", hostApp + "%2f", "evil.com\\@" + hostApp, hostApp + "."}
 var oddBytes = []string{" ", "\t", "\r", "\x00", "\x7f", "\x1f", "\x80", "\\", "/", "?", "#", "%", ":", "@", ";", "."}
 
 func genTarget(r *c.Rng) string {
@@ -709,8 +709,8 @@ func main() {
 	defer auth.Srv.Close()
 	backend := c.NewBackend("b")
 	defer backend.Srv.Close()
-	yaml := "- service: app\n  default:\n    from: " + hostApp + "\n    to: " + backend.HostPort() + "\n    options:\n      allowed_email_domains: [\"example.com\"]\n" +
-		"- service: other\n  default:\n    from: " + hostOther + "\n    to: " + backend.HostPort() + "\n    options:\n      allowed_email_addresses: [\"vip@corp.test\"]\n"
+	yaml := "- service: app\n  default:\n    from: " + hostApp + "\n    to: " + backend.HostPort() + "\n    options:\n      allowed_email_domains: [\"ex.io\"]\n" +
+		"- service: other\n  default:\n    from: " + hostOther + "\n    to: " + backend.HostPort() + "\n    options:\n      allowed_email_addresses: [\"vip@co.io\"]\n"
 	pw, err := c.BuildProxy(c.ProxyOpts{YAML: yaml, Valid: time.Hour, Dir: dir}, auth)
 	c.Must(err)
 	other, err := aead.NewMiscreantCipher(c.OtherSecret)
@@ -723,7 +723,7 @@ func main() {
 	w.addr = strings.TrimPrefix(w.srv.URL, "http://")
 
 	// two ordinary logins: the sealed sessions they yield are "values this proxy sealed"
-	auth.Set(c.AuthScript{Redeem: okRedeem("u@example.com")})
+	auth.Set(c.AuthScript{Redeem: okRedeem("u@ex.io")})
 	for i := 0; i < 2; i++ {
 		x := newCtx()
 		st, err := w.start(x, hostApp, "/")
@@ -768,7 +768,7 @@ func main() {
 	}
 	for _, t := range []string{"/", "/x", "//evil.com", "http://" + hostApp + "/x", "/ping"} {
 		cases = append(cases, w.targetCase(hostOther, t))
-		cases = append(cases, w.targetCase("unknown.example.test", t))
+		cases = append(cases, w.targetCase("unknown.test", t))
 	}
 	nFlow := a.N * 2 / 5
 	for i := 0; i < nFlow; i++ {
@@ -782,7 +782,7 @@ func main() {
 		case 0:
 			hh = hostOther
 		case 1:
-			hh = "unknown.example.test"
+			hh = "unknown.test"
 		}
 		cases = append(cases, w.targetCase(hh, genTarget(r)))
 	}
